@@ -12,18 +12,32 @@ def setup():
     import importlib
     import subprocess
     sys.path.insert(0, os.path.dirname(os.path.abspath(__file__)))
-    mods, exes = [], []
+    mods, exes, gens = [], [], []
     lakefile = open(os.path.join(core.LEAN_DIR, "lakefile.toml")).read()
     for f in sorted(glob.glob(os.path.join(os.path.dirname(os.path.abspath(__file__)), "props", "C*.py"))):
         m = importlib.import_module("props." + os.path.basename(f)[:-3])
         claimed = __import__("json").load(open(os.path.join(os.path.dirname(os.path.abspath(__file__)), "claimed.json")))
         if getattr(m, "READY", False) and m.ID in claimed:
             mods += getattr(m, "LEAN_MODULES", [])
+            gens += [(g, m) for g in getattr(m, "GENERATORS", [])]
             for d in getattr(m, "LEAN_DRIVERS", []):
                 if f'name = "drv_{d.lower()}"' in lakefile:
                     exes.append("drv_" + d.lower())
-    r = subprocess.run(["lake", "build"] + sorted(set(mods)) + sorted(set(exes)), cwd=core.LEAN_DIR)
-    sys.exit(r.returncode)
+    # regenerate the translated parts of the model from /repo's working tree (as every check does)
+    for g, m in gens:
+        try:
+            g(core.Ctx(m, "quick", 0))
+        except Exception as e:  # noqa: BLE001
+            print("setup: generator of %s failed: %s" % (m.ID, e))
+    targets = sorted(set(mods)) + sorted(set(exes))
+    r = subprocess.run(["lake", "build"] + targets, cwd=core.LEAN_DIR)
+    if r.returncode != 0:
+        # a proof that no longer builds is reported by the property's own check (proof break), not by setup:
+        # build what can be built so that the other checks are unaffected
+        for t in targets:
+            subprocess.run(["lake", "build", t], cwd=core.LEAN_DIR, capture_output=True)
+        print("setup: some Lean targets failed to build; the affected checks will report it")
+    sys.exit(0)
 
 
 def main():
